@@ -308,10 +308,11 @@ func runC05(c *core.Ctx) {
 			m.Offline, m.Flags = nil, m.Flags&6
 			signer := key
 			if i%4 < 2 {
-				o, tk := offlineFor(r, key, []int{7, 11}[(i/4)%2])
+				o, tk := offlineFor(r, key, []int{7, 11, 8}[(i/4)%3])
 				m.Offline, signer = &o, tk
 				m.Flags |= 1
 			}
+			sh["signing_key_type"] = signer.Type
 			if len(m.Leases) == 0 {
 				m.Leases = []rm.Lease2{gen.Lease2(r)}
 			}
@@ -333,11 +334,19 @@ func runC05(c *core.Ctx) {
 			c05LibSigned(c, verifyAdapters["leaseset2"], b, sh, r)
 		default: // NewEncryptedLeaseSet
 			m, sh := gen.EncryptedLeaseSet(r)
+			if (i/10)%3 == 2 {
+				// blinded key of type 8 (EdDSA_SHA512_Ed25519ph), or a type-8 transient key below
+				key, _ = rm.NewSigKey([]int{8, 7}[(i/30)%2], r)
+			}
 			m.SigType, m.BlindedKey = uint16(key.Type), key.Pub
 			m.Offline, m.Flags = nil, m.Flags&2
 			signer := key
-			if i%4 < 2 {
-				o, tk := offlineFor(r, key, 7)
+			if i%4 < 2 && key.Type != 8 {
+				tt := 7
+				if (i/10)%3 == 2 {
+					tt = 8
+				}
+				o, tk := offlineFor(r, key, tt)
 				m.Offline, signer = &o, tk
 				m.Flags |= 1
 			}
@@ -350,6 +359,11 @@ func runC05(c *core.Ctx) {
 				return
 			}
 			sh["class"] = "library-signed/encleaseset"
+			sh["sig"], sh["offline"], sh["signing_key_type"] = key.Type, m.Offline != nil, signer.Type
+			delete(sh, "transient")
+			if m.Offline != nil {
+				sh["transient"] = int(m.Offline.SigType)
+			}
 			c05LibSigned(c, verifyAdapters["encleaseset"], b, sh, r)
 		}
 	})
